@@ -88,6 +88,10 @@ type Step struct {
 	Token     string            `json:"token,omitempty"` // cred.get: env | wrong | empty | lit:<x>
 	Creds     []string          `json:"creds,omitempty"` // restore: key, secret, session
 	Flag      string            `json:"flag,omitempty"`
+	// invoke (driver): SigHeaders is raised when the response headers have arrived; with ReadAfter the caller reads the
+	// response body only after that latch (a caller on a slow link: its socket has a 128 KiB receive buffer)
+	SigHeaders string `json:"sigHeaders,omitempty"`
+	ReadAfter  string `json:"readAfter,omitempty"`
 	SlowBody  string            `json:"slowBody,omitempty"` // latch: the request body is uploaded in two parts, the second after this latch
 	Quiet     bool              `json:"quiet,omitempty"`    // await: a timeout is expected and not worth a note
 }
